@@ -789,7 +789,7 @@ func (e *Engine) havocAll(h *Heap) {
 	for _, k := range ks {
 		e.havocComp(h, k)
 	}
-	h.all = true
+	h.pendAll()
 }
 
 // havocHeapComp havocs a component (or, for a pattern ending in *, every component with that prefix).
@@ -1535,7 +1535,7 @@ func (e *Engine) compFull(h *Heap, name, full string) string {
 	e.comps[name] = full
 	var nm string
 	if h.pending(name) {
-		nm = e.fresh("Hv."+name, full)
+		nm = e.pendSym(h, name, full)
 	} else {
 		nm = e.initial(name)
 	}
